@@ -354,6 +354,19 @@ def case_rules_table(ctx, rule):
             rule.instance({'document': kind + ' with SVG elements', 'selector': s_, 'selected': g, 'expected': want}, key=f'case|foreign|{kind}|{s_}')
             if g != want and bad is None:
                 bad = (kind + ' tree with SVG elements (names stored as foreignObject, linearGradient)', s_, g, want)
+    # only ASCII letters are folded: names that differ in the case of a non-ASCII letter are different names, also in HTML trees
+    uspec = [('html', {'_label': 'root'}, [('body', {}, [('item\u00e9', {'data-\u00e9': '1', '_label': 'lowe'}, []), ('item\u00c9', {'data-\u00c9': '1', '_label': 'upe'}, []),
+                                                       ('\u212aey', {'_label': 'kelvin'}, []), ('key', {'_label': 'key'}, []), ('\u0131d', {'_label': 'dotless'}, []),
+                                                       ('ITEM\u00e9', {'_label': 'asciiup'}, [])])])]
+    doc, order, L = make_doc(uspec, 'html5')
+    for s_, want in (('item\u00e9', ['<lowe>', '<asciiup>']), ('item\u00c9', ['<upe>']), ('ITEM\u00c9', ['<upe>']), ('[data-\u00e9]', ['<lowe>']), ('[data-\u00c9]', ['<upe>']),
+                     ('[DATA-\u00e9]', ['<lowe>']), ('key', ['<key>']), ('KEY', ['<key>']), ('\u212aey', ['<kelvin>']), ('id', []), ('\u0131d', ['<dotless>'])):
+        st, got = api(ctx, 'select', s_, doc)
+        n += 1
+        g = [label(x) for x in got] if st == 'ok' else f'raises {got}'
+        rule.instance({'document': 'html5 with non-ASCII names', 'selector': s_, 'selected': g, 'expected': want}, key=f'case|nonascii|{s_}')
+        if g != want and bad is None:
+            bad = ('HTML tree whose element / attribute names contain cased non-ASCII letters (only ASCII letters are folded)', s_, g, want)
     rule.instance({'api_calls': n}, key='case-rules')
     rule.obligation(bad is None)
     if bad is not None:
@@ -457,6 +470,32 @@ def history_table(ctx, rule):
             if not ok and bad is None:
                 bad = (kind, s, first if isinstance(first, str) else _show(first), again if isinstance(again, str) else _show(again),
                        _show(fresh[1]) if fresh[0] == 'ok' else fresh[1])
+    # within ONE call the answer for an element does not depend on which elements were evaluated before it: select() over a tree
+    # with several radio groups, forms and iframes equals the per-element answers of fresh match() calls
+    TI = [('html', {}, [('body', {}, [
+        ('input', {'type': 'radio', 'name': 'g', '_label': 'o1'}, []), ('input', {'type': 'radio', 'name': 'g', '_label': 'o2'}, []),
+        ('iframe', {}, [('html', {}, [('body', {}, [('input', {'type': 'radio', 'name': 'g', 'checked': '', '_label': 'i1'}, []),
+                                                    ('input', {'type': 'radio', 'name': 'g', '_label': 'i2'}, []),
+                                                    ('form', {}, [('input', {'type': 'submit', '_label': 's1'}, [])])])])]),
+        ('form', {}, [('input', {'type': 'radio', 'name': 'g', '_label': 'f1'}, []), ('input', {'type': 'submit', '_label': 's2'}, [])]),
+        ('form', {}, [('input', {'type': 'radio', 'name': 'g', '_label': 'f2'}, []), ('input', {'type': 'submit', '_label': 's3'}, [])]),
+        ('section', {'lang': 'de'}, [('ul', {}, [('li', {'_label': 'l1'}, ['x'])])]), ('section', {'lang': 'fr'}, [('ul', {}, [('li', {'_label': 'l2'}, ['x'])])])])])]
+    doc, order, L = make_doc(TI, 'html')
+    els = elements(order)
+    for s in (':indeterminate', ':default', 'li:lang(de)', 'li:lang(fr)', 'input:not(:indeterminate)', ':is(:default, :indeterminate)'):
+        st, sel = api(ctx, 'select', s, doc)
+        per = []
+        for e in els:
+            st2, v = api(ctx, 'match', s, e)
+            n += 1
+            if st2 == 'ok' and v is True:
+                per.append(e)
+        ok = st == 'ok' and _ids(sel) == _ids(per)
+        rule.instance({'document': 'radio groups, forms, iframes, look-alike sections', 'selector': s, 'select': _show(sel) if st == 'ok' else sel, 'per_element': _show(per)},
+                      key=f'history|one-call|{s}')
+        if not ok and bad is None:
+            bad = ('html (radio groups in and outside an iframe, look-alike forms and sections)', s, _show(sel) if st == 'ok' else f'raises {sel}',
+                   'the same elements - it is one call', _show(per))
     rule.instance({'api_calls': n}, key='history')
     rule.obligation(bad is None)
     if bad is not None:
@@ -626,7 +665,18 @@ def lang_pipeline_table(ctx, rule):
     TH = [('html', {'_label': 'root'}, [('head', {}, [('meta', {'http-equiv': 'Content-Language', 'content': 'es'}, [])]),
                                         ('body', {}, [('p', {'_label': 'p'}, []), ('p', {'lang': 'pt', '_label': 'q'}, [])])])]
     rows_h = [('p:lang(es)', ['p']), ('p:lang(pt)', ['q']), ('body:lang(es)', ['body']), ('p:lang(en)', [])]
-    _rows_table(ctx, rule, 'lang', [('XHTML (XML parser), LANG next to lang', 'xhtml', TX, None, rows_x), ('XML, xml:lang next to lang', 'xml', TM, None, rows_m),
+    # the choice between lang and xml:lang is made for each ancestor by ITS namespace (an SVG ancestor of an HTML element in a
+    # namespace-aware HTML tree declares its language with xml:lang)
+    SVGN = 'http://www.w3.org/2000/svg'
+    TF = [('html', {'lang': 'en', '_label': 'root'}, [('body', {}, [
+        ('svg', {'_ns': SVGN, NSKey('xml:lang', XMLNS, 'lang'): 'fr', 'lang': 'de', '_label': 'svg'}, [
+            ('circle', {'_ns': SVGN, '_label': 'circle'}, []),
+            ('foreignObject', {'_ns': SVGN, '_label': 'fo'}, [('p', {'_label': 'p'}, []), ('p', {'lang': 'it', NSKey('xml:lang', XMLNS, 'lang'): 'es', '_label': 'q'}, [])])]),
+        ('div', {NSKey('xml:lang', XMLNS, 'lang'): 'fr', '_label': 'div'}, [])])])]
+    rows_f = [('p:lang(fr)', ['p']), ('p:lang(de)', []), ('p:lang(it)', ['q']), ('p:lang(es)', []), ('*|circle:lang(fr)', ['circle']), ('div:lang(en)', ['div']),
+              ('div:lang(fr)', [])]
+    _rows_table(ctx, rule, 'lang', [('XHTML (XML parser), LANG next to lang', 'xhtml', TX, None, rows_x),
+                                    ('namespace-aware HTML with an SVG subtree: xml:lang on foreign ancestors, lang on HTML ones', 'html5', TF, None, rows_f), ('XML, xml:lang next to lang', 'xml', TM, None, rows_m),
                                     ('HTML, content-language pragma', 'html', TH, None, rows_h),
                                     ('HTML, look-alike subtrees under different languages', 'html', TS, None, rows_s),
                                     ('XHTML, look-alike subtrees under different languages', 'xhtml', TS, None, rows_s)],
@@ -836,3 +886,97 @@ def scope_independence_table(ctx, rule):
         rule.violation(f'scope independence `{s}` ({kind})', 'soupsieve/css_match.py (CSSMatch.__init__ / supports_namespaces)',
                        f'{s!r} on the {kind} tree with SVG and MathML subtrees: {problem}. Document type and namespace support are facts of the '
                        f'document, not of the element a call starts from')
+
+
+def default_namespace_state_table(ctx, rule):
+    """HTML state pseudo-classes and lists that mix them with ordinary selectors, on a namespace-aware HTML tree, when the
+    caller's namespace map has a default entry that is NOT the XHTML namespace: the built-in definitions (`input`, `a`, ...) keep
+    meaning HTML elements, the partition laws hold, and a list is still the union of its alternatives."""
+    from ..e2e import batch_api
+    spec = [('html', {'_label': 'root'}, [('body', {}, [
+        ('form', {'_label': 'form'}, [('input', {'type': 'text', 'required': '', '_label': 'req'}, []), ('input', {'type': 'checkbox', 'checked': '', '_label': 'box'}, []),
+                                     ('textarea', {'_label': 'ta'}, []), ('select', {'disabled': '', '_label': 'sel'}, [('option', {'selected': '', '_label': 'opt'}, [])]),
+                                     ('button', {'type': 'submit', '_label': 'btn'}, [])]),
+        ('a', {'href': 'x', '_label': 'link'}, []), ('area', {'href': 'y', '_label': 'area'}, []), ('p', {'dir': 'rtl', '_label': 'p'}, []),
+        ('svg', {'_ns': SVG_NS, '_label': 'svg'}, [('a', {'_ns': SVG_NS, 'href': 'z', '_label': 'sa'}, [])])])])]
+    doc, order, L = make_doc(spec, 'html5')
+    idx = {id(n_): i for i, n_ in enumerate(order)}
+    lab = lambda ixs: [label(order[i]).strip('<>') for i in ixs]       # noqa: E731
+    ns = (('namespaces', {'': SVG_NS, 'h': XHTML}),)
+    rows = [('*|*:enabled', ['req', 'box', 'ta', 'opt', 'btn']), ('*|*:disabled', ['sel']), ('h|*:required', ['req']), ('*|*:optional', ['box', 'ta', 'sel']),
+            ('*|*:checked', ['box', 'opt']), ('*|*:default', ['box', 'opt', 'btn']), ('*|*:link', ['link', 'area']), ('*|*:any-link', ['link', 'area']),
+            ('h|*:read-write', ['req', 'ta']), ('*|*:is(h|input, h|textarea, h|select)', ['req', 'box', 'ta', 'sel']), ('*|*:dir(rtl)', ['p']),
+            ('a', ['sa']), ('*|a', ['link', 'sa']), ('h|a:link', ['link'])]
+    pairs = [('*|*:optional', '*|*:is(h|input, h|textarea, h|select)'), ('*|*:is(h|a, h|area)', '*|*:link'), ('*|*:required', '*|*:is(h|input)'),
+             ('*|*:checked', '*|*:is(h|input[type=checkbox], h|option)'), ('*|*:enabled', 'h|select'), ('a', '*|*:any-link'),
+             # lists written by the user that are spelled exactly like the lists inside the built-in definitions (where the unprefixed
+             # names mean HTML elements) - here the unprefixed names mean SVG elements
+             ('*|*:is(a, area)', '*|*:link'), ('*|*:link', '*|*:is(a, area)'), ('*|*:optional', '*|*:is(input, textarea, select)'),
+             ('*|*:is(input, textarea, select)', '*|*:required'), ('*|*:is(button, input)', '*|*:default'), ('*|*:default', '*|*:is(button, input)'),
+             ('*|*:not(:is(a, area))', '*|*:any-link')]
+    texts = [r[0] for r in rows]
+    for a, b in pairs:
+        texts += [a, b, f'{a}, {b}', f'{b}, {a}', f'*|*:is({a}, {b})', f'*|*:not({a}, {b})']
+    texts = list(dict.fromkeys(texts))
+    res = dict(zip(texts, batch_api(ctx, {'d': (doc, order)}, [('d', 'select', t, None, ns) for t in texts])))
+    els = [idx[id(e)] for e in elements(order)]
+    bad = None
+    for s, want in rows:
+        got = res[s]
+        g = lab(got[1]) if got[0] == 'ok' else f'raises {got[1]}'
+        rule.instance({'selector': s, 'selected': g, 'expected': want}, key=f'defaultns|{s}')
+        if g != want and bad is None:
+            bad = (s, g, f'by the definitions of the HTML Standard: {want}')
+    for a, b in pairs:
+        ra, rb = res[a], res[b]
+        if ra[0] != 'ok' or rb[0] != 'ok':
+            continue
+        union = sorted(set(ra[1]) | set(rb[1]))
+        for text, want in ((f'{a}, {b}', union), (f'{b}, {a}', union), (f'*|*:is({a}, {b})', union), (f'*|*:not({a}, {b})', [e for e in els if e not in union])):
+            got = res[text]
+            if got != ('ok', want) and bad is None:
+                bad = (text, lab(got[1]) if got[0] == 'ok' else f'raises {got[1]}', f'the union / complement of its alternatives: {lab(want)}')
+    rule.instance({'api_calls': len(texts)}, key='defaultns-calls')
+    rule.obligation(bad is None)
+    if bad is not None:
+        s, g, law = bad
+        rule.violation(f'default namespace and HTML state `{s}`', 'soupsieve/css_match.py (match_selectors / match_subselectors)',
+                       f'{s!r} on a namespace-aware HTML tree with namespaces={{"": SVG, "h": XHTML}} selects {g}; {law}')
+
+
+def range_pipeline_table(ctx, rule):
+    """:in-range / :out-of-range through the whole pipeline: the same attribute text on inputs of different types, reversed time
+    ranges, years of different width, missing bounds - in both document orders."""
+    inputs = [
+        ('d1', {'type': 'date', 'min': '2024-05', 'value': '2024-06-01'}, None),            # min is not a date: no bound -> neither
+        ('m1', {'type': 'month', 'min': '2024-05', 'value': '2024-04'}, 'out'),
+        ('m2', {'type': 'month', 'min': '2024-05', 'value': '2024-06'}, 'in'),
+        ('n1', {'type': 'number', 'min': '10', 'value': '9'}, 'out'), ('t1', {'type': 'time', 'min': '10', 'value': '09:00'}, None),
+        ('t2', {'type': 'time', 'min': '22:00', 'max': '02:00', 'value': '23:30'}, 'in'), ('t3', {'type': 'time', 'min': '22:00', 'max': '02:00', 'value': '12:00'}, 'out'),
+        ('y1', {'type': 'date', 'max': '9999-12-31', 'value': '10000-01-01'}, 'out'), ('y2', {'type': 'date', 'min': '9999-12-31', 'value': '10000-01-01'}, 'in'),
+        ('y3', {'type': 'month', 'min': '02020-01', 'value': '2019-12'}, 'out'), ('w1', {'type': 'week', 'min': '2020-W10', 'value': '2020-W09'}, 'out'),
+        ('r1', {'type': 'range', 'max': '5', 'value': '5.0'}, 'in'), ('r2', {'type': 'range', 'max': '5', 'value': '5.5e0'}, 'out'),
+        ('x1', {'type': 'text', 'min': '1', 'value': '0'}, None), ('x2', {'type': 'number', 'value': '3'}, None),
+        ('l1', {'type': 'datetime-local', 'min': '2020-01-01T10:00', 'value': '2020-01-01T09:59'}, 'out'), ('v0', {'type': 'number', 'min': '1', 'value': 'abc'}, 'in'),
+        ('f1', {'type': 'date', 'min': '2023-02-29', 'value': '2023-03-01'}, None), ('f2', {'type': 'date', 'min': '2024-02-29', 'value': '2024-02-28'}, 'out'),
+    ]
+    bad = None
+    n = 0
+    for order_name, seq in (('document order', inputs), ('reverse order', inputs[::-1])):
+        spec = [('html', {}, [('body', {}, [('input', dict(a, _label=nm), []) for nm, a, _ in seq])])]
+        doc, order, L = make_doc(spec, 'html')
+        for sel, key in ((':in-range', 'in'), (':out-of-range', 'out')):
+            st, got = api(ctx, 'select', sel, doc)
+            n += 1
+            g = [label(x).strip('<>') for x in got] if st == 'ok' else f'raises {got}'
+            want = [nm for nm, _, v in seq if v == key]
+            rule.instance({'order': order_name, 'selector': sel, 'selected': g, 'expected': want}, key=f'range|{order_name}|{sel}')
+            if g != want and bad is None:
+                bad = (order_name, sel, g, want)
+    rule.obligation(bad is None)
+    if bad is not None:
+        order_name, sel, g, want = bad
+        rule.violation(f'range inputs `{sel}` ({order_name})', 'soupsieve/css_match.py (match_range / Inputs.parse_value)',
+                       f'{sel!r} over inputs of every range type with shared attribute texts ({order_name}) selects {g}; by the HTML Standard '
+                       f'(a bound or value that is not valid FOR THAT TYPE is ignored; time ranges may wrap; values compare numerically) it '
+                       f'designates {want}')
